@@ -172,6 +172,46 @@ pub fn remaining_bits_quiet(r: &H263Reader<Growable>, src: &Growable) -> usize {
     (8 * (src.0.borrow().len() + buffered)).saturating_sub(consumed)
 }
 
+/// `SZ <w> <h>` -> `SZ luma=<n> cb=<n> cr=<n> spr=<chroma samples per row>`: the planes `DecodedPicture::new` allocates for a
+/// custom picture format of that size (no decoding; sizes far above what a decode case can afford)
+pub fn plane_sizes(a: &[&str]) -> String {
+    let w: u16 = a[0].parse().expect("w");
+    let h: u16 = a[1].parse().expect("h");
+    let hdr = Picture {
+        version: None,
+        temporal_reference: 0,
+        format: None,
+        options: h263_rs::PictureOption::empty(),
+        has_plusptype: false,
+        has_opptype: false,
+        picture_type: h263_rs::PictureTypeCode::IFrame,
+        motion_vector_range: None,
+        slice_submode: None,
+        scalability_layer: None,
+        reference_picture_selection_mode: None,
+        prediction_reference: None,
+        backchannel_message: None,
+        reference_picture_resampling: None,
+        quantizer: 1,
+        multiplex_bitstream: None,
+        pb_reference: None,
+        pb_quantizer: None,
+        extra: vec![],
+    };
+    let fmt = SourceFormat::Extended(CustomPictureFormat {
+        pixel_aspect_ratio: PixelAspectRatio::Square,
+        picture_width_indication: w,
+        picture_height_indication: h,
+    });
+    match DecodedPicture::new(hdr, fmt) {
+        Some(p) => {
+            let (y, b, r) = p.as_yuv();
+            format!("SZ luma={} cb={} cr={} spr={}", y.len(), b.len(), r.len(), p.chroma_samples_per_row())
+        }
+        None => "SZ none".into(),
+    }
+}
+
 /// `H <opts> <hexPrev|-> <hex>` -> `H <header|none|err:Name> used=<bits>`
 pub fn header(a: &[&str]) -> String {
     let o = opts_of(a[0].parse().expect("opts"));
